@@ -20,7 +20,7 @@ import multiprocessing as mp
 import z3
 
 from .engine import terms as T
-from .engine.vc import Ctx, explore, discharge, discharge_smt2, PathResult, Unsupported, PathAbort, PathEnd
+from .engine.vc import Ctx, explore, discharge, discharge_smt2, PathResult, Unsupported, PathAbort, PathEnd, ContractStop
 from .engine.values import PyRaise, FuncVal
 from .engine.interp import Interp
 from .engine.repo import Repo
@@ -156,6 +156,8 @@ def run_case(cls, case_idx, timeout_ms=None):
             else:
                 v = c.body(itp, case, args, kwargs)
             out = Out("return", v)
+        except ContractStop as cs:
+            out = Out("stopped", msg=str(cs))
         except PyRaise as e:
             out = Out("raise", exc=e.etype, msg=e.msg)
         except Unsupported as u:
